@@ -20,6 +20,15 @@ def run():
                    "defined nonterminal, no alternative listed twice for a symbol (two identical alternatives make the "
                    "constructor's factorization assert; not what C03 is about), names free of '__' and '$' "
                    "(nonterminals that are not reachable from the start symbol are allowed and enumerated)",
+                   "grammars with ProdsTemplate symbols: ListProds / MapProds / ProdSequence are used with the argument "
+                   "combinations their constructors document as implemented (brackets both or none, "
+                   "allow_final_delimiter / optional only where allowed, MapProds with assign and delimiter, a "
+                   "ProdSequence of pairwise different symbols); brackets, delimiter and assignment symbols are tokens; "
+                   "the item of a ListProds without delimiter is not nullable (the constructor reports that usage "
+                   "with its own GrammarError before it looks for cycles - although such a list IS a symbol that "
+                   "reaches itself without consuming a token, these grammars are left out rather than demanding "
+                   "GrammarIsRecursive for them); the left-corner relation of a template symbol is the one of the "
+                   "productions its class documentation gives (harness/c03_templates.py: expand)",
                    "terminals are word tokens separated by blanks (one regex group per terminal)",
                    "termination is observed only as 'parse returned or raised within %d parse-loop events "
                    "(TElement/_StackElement creations and roll-backs, counted by in-memory wrappers) and %.0f s "
@@ -31,4 +40,4 @@ def run():
                    "an exception of parse() that is not an llparser.Error, and a constructor exception other than "
                    "GrammarIsRecursive on a non-recursive grammar, are reported as diagnostics only (C01/C02 territory)",
                    "bounded: <= 3 nonterminals, <= 2 alternatives, right-hand sides <= 3, 2 terminals, total size "
-                   "bound per family (see rule)"], t0)
+                   "bound per family (see rule); with templates: <= 2 plain nonterminals and <= 2 template symbols"], t0)
